@@ -104,6 +104,12 @@ _reserved_words = {
 }
 
 
+def fmt_string_body(s):
+    """Escapes text so that it can be placed between the quotes of a Swift string literal."""
+    return (s.replace('\\', '\\\\').replace('"', '\\"')
+            .replace('\n', '\\n').replace('\r', '\\r'))
+
+
 def fmt_obj(o):
     assert not isinstance(o, dict), "Only use for base type literals"
     if o is True:
@@ -115,7 +121,7 @@ def fmt_obj(o):
     if o == '':
         return '""'
     elif isinstance(o, str):
-        return '"{}"'.format(o)
+        return '"{}"'.format(fmt_string_body(o))
 
     return pprint.pformat(o, width=1)
 
